@@ -15,9 +15,12 @@
 
 void harness(void)
 {
-    WIT(uchar, nf); WIT_ARR(size_t, fo, C10_NCHUNK); WIT_ARR(size_t, fs, C10_NCHUNK); WIT(size_t, brk); WIT(uchar, fresh);
-    WIT(uchar, hasL); WIT(size_t, Lo); WIT(size_t, Ls); WIT(size_t, b); WIT(int, nlive); WIT(size_t, len);
-    C10_HEAP_STATE(nf, fo, fs, brk, fresh, hasL, Lo, Ls, nlive);
+    /* offsets and sizes in words (H1: everything is 8-aligned) */
+    WIT(uchar, nf); WIT_ARR(uchar, wfo, C10_NCHUNK); WIT_ARR(uchar, wfs, C10_NCHUNK); WIT(uchar, wbrk); WIT(uchar, fresh);
+    WIT(uchar, hasL); WIT(uchar, wLo); WIT(uchar, wLs); WIT(size_t, b); WIT(int, nlive); WIT(size_t, len);
+    size_t fo[C10_NCHUNK], fs[C10_NCHUNK];
+    for (int i = 0; i < C10_NCHUNK; i++) { fo[i] = 8 * (size_t)wfo[i]; fs[i] = 8 * (size_t)wfs[i]; }
+    C10_HEAP_STATE(nf, fo, fs, 8 * (size_t)wbrk, fresh, hasL, 8 * (size_t)wLo, 8 * (size_t)wLs, nlive);
     __CPROVER_assume(!fresh || nlive == 0);
     size_t live0 = c10_live_bytes(c10_brk, c10_nf, c10_fs);
     __CPROVER_assume(!c10_hasL || b < c10_Ls);
